@@ -197,6 +197,8 @@ class Types:
                 if eb:
                     out.append(("ext", eb[0] + "." + attr))
                     continue
+                if len(members(t)) > 1:
+                    continue  # a union member without the attribute: narrowed away by use
                 return None
             elif u[0] == "module":
                 r = self.prog.lookup_module_symbol(self.prog.modules[u[1]], attr)
